@@ -66,9 +66,16 @@ func TestC22RetransmissionStops(t *testing.T) {
 				if !h.alive(n) {
 					continue
 				}
-				for _, s := range n.Swaps() {
-					if waitingForTaker(string(s.Current)) {
-						waiting++
+				// the state machine's own (in-memory) state decides: after a failed store write it can be
+				// ahead of the persisted record
+				for _, id := range n.Svc.VerifActiveSwapIds() {
+					if sm, err := n.Svc.GetActiveSwap(id); err == nil && sm != nil {
+						st := string(sm.Current)
+						// the announcing state itself counts: a failed store write can leave the machine there
+						// with the announcement out and the retransmitter running
+						if waitingForTaker(st) || st == "State_SwapInSender_SendTxBroadcastedMessage" || st == "State_SwapOutReceiver_SendTxBroadcastedMessage" {
+							waiting++
+						}
 					}
 				}
 			}
@@ -91,7 +98,14 @@ func TestC22RetransmissionStops(t *testing.T) {
 					if rec != nil {
 						st = string(rec.Current)
 					}
-					waiting := waitingForTaker(st) && ts.Epoch == n.Proc.Epoch && h.alive(n)
+					// the state machine's own state decides (a failed store write leaves the record behind)
+					if h.alive(n) && ts.Epoch == n.Proc.Epoch {
+						if sm, err := n.Svc.GetActiveSwap(ts.SwapId); err == nil && sm != nil {
+							st = string(sm.Current)
+						}
+					}
+					announcing := st == "State_SwapInSender_SendTxBroadcastedMessage" || st == "State_SwapOutReceiver_SendTxBroadcastedMessage"
+					waiting := (waitingForTaker(st) || announcing) && ts.Epoch == n.Proc.Epoch && h.alive(n)
 					before := countOpeningMsgs(n, ts.SwapId)
 					consumed := ts.OfferTick(tickGrace)
 					if consumed {
@@ -151,9 +165,10 @@ func TestC22RetransmissionStops(t *testing.T) {
 			for i := 0; i < cnt; i++ {
 				q = append(q, sim.FaultBefore)
 			}
-			n.Faults["msg.Send"] = q
-			h.opf("offline(%s,skip=%d,n=%d)", n.Name, skip, cnt)
-			h.class("send-failure-planned")
+			call := rapid.SampledFrom([]string{"msg.Send", "msg.Send", "store.UpdateData"}).Draw(t, "offCall")
+			n.Faults[call] = q
+			h.opf("offline(%s,%s,skip=%d,n=%d)", n.Name, call, skip, cnt)
+			h.class("failure-planned:" + call)
 		}
 		acts["peer"] = func() {
 			for _, n := range h.nodes() {
